@@ -338,16 +338,47 @@ def run_case(case):
     return res
 
 
+def water_box(n_side):
+    """n_side^3 complete waters (3 atoms each): more than 9999 atom records
+    end to end (hetero records whose name abuts a five-digit serial)."""
+    import numpy as np
+
+    from ..refs import templates as T
+
+    wat = T.load()[0]["WAT"]
+    o = np.array(wat.atoms["O"].xyz)
+    atoms = []
+    n = 0
+    for i in range(n_side):
+        for j in range(n_side):
+            for k in range(n_side):
+                n += 1
+                xyz = np.array([i * 3.1, j * 3.1, k * 3.1])
+                seq = (n - 1) % 9999 + 1
+                chain = "WXYZ"[(n - 1) // 9999]
+                atoms.append(build.water(xyz, seq, chain=chain))
+                for hn in ("H1", "H2"):
+                    atoms.append(build.water(
+                        np.array(wat.atoms[hn].xyz) - o + xyz, seq,
+                        chain=chain, name=hn))
+    return atoms
+
+
 def run_e2e(case, res):
     """Built peptide with extreme numbering / offsets through main_driver."""
-    numbers = case["numbers"]
-    icodes = case.get("icodes")
-    atoms = build.build_peptide(["ALA", "SER", "GLY"], numbers=numbers,
-                                icodes=icodes, origin=case["origin"])
+    if case.get("box"):
+        atoms = water_box(case["box"])
+        base_opts = ["--ff=AMBER", "--assign-only"]
+    else:
+        numbers = case["numbers"]
+        icodes = case.get("icodes")
+        atoms = build.build_peptide(["ALA", "SER", "GLY"], numbers=numbers,
+                                    icodes=icodes, origin=case["origin"])
+        base_opts = ["--ff=AMBER", "--noopt", "--nodebump"]
     text = build.pdb_text(atoms)
     for w in (False, True):
         for k in (False, True):
-            opts = ["--ff=AMBER", "--noopt", "--nodebump"]
+            opts = list(base_opts)
             if w:
                 opts.append("--whitespace")
             if k:
@@ -418,4 +449,5 @@ def enumerate_cases(tier, seed):
     for label, numbers, icodes, origin in e2e:
         cases.append({"mode": "e2e", "label": label, "numbers": numbers,
                       "icodes": icodes, "origin": list(origin)})
+    cases.append({"mode": "e2e", "label": "water-box-10125-atoms", "box": 15})
     return cases
